@@ -740,6 +740,9 @@ theorem inv_astep {s s' : St} {tid : Nat} {a : Act} (h : Inv s) (hs : astep s ti
   | takeE t c v => exact inv_takeE h hs
   | putE c t v => exact inv_putE h hs
   | takeF t c => exact inv_takeF h hs
+  | clr t =>
+    simp only [astep] at hs
+    split at hs <;> first | (cases hs; done) | (cases hs; exact h)
 
 theorem inv_reach {n : Nat} {s : St} (h : Reach n s) : Inv s := by
   induction h with
@@ -1236,6 +1239,9 @@ theorem content_stable {s s' : St} {tid : Nat} {a : Act} {v b : Nat} {blk : Bloc
   | give x tid' =>
     simp only [astep] at hs
     split at hs <;> first | (cases hs; done) | (cases hs; exact same rfl)
+  | clr t =>
+    simp only [astep] at hs
+    split at hs <;> first | (cases hs; done) | (cases hs; exact same rfl)
 
 
 /-! ### handles embedded in payloads -/
@@ -1302,6 +1308,7 @@ theorem astep_slots_other {s s' : St} {tid x : Nat} {a : Act} (hs : astep s tid 
     case isFalse => cases hs
     case isTrue hc => cases hs; left; exact updne _ _ _ hc.2.1
   | give v tid' => simp only [astep] at hs; split at hs <;> first | (cases hs; done) | (cases hs; left; rfl)
+  | clr t => simp only [astep] at hs; split at hs <;> first | (cases hs; done) | (cases hs; left; rfl)
   | takeE t c v =>
     by_cases e : x = embSlot c
     · right; left; exact ⟨t, c, v, Or.inl rfl, e⟩
